@@ -35,7 +35,7 @@ func init() {
 
 func genC12(seed uint64, i int, tier string) *Scenario {
 	r := NewRng(seed)
-	if i%3001 == 23 {
+	if i%2003 == 23 {
 		return genC12Big(r)
 	}
 	sc := &Scenario{Cfg: Config{Batch: pickBatch(r), Cache: r.Bool(), Alias: r.Chance(0.4), Lazy: r.Chance(0.3)}}
